@@ -71,6 +71,8 @@ func argList(n int) (string, string) {
 	return strings.Join(ps, ", "), strings.Join(as, ", ")
 }
 
+const nMulti = 10
+
 func render(n *Node) string {
 	id := strconv.Itoa(n.ID)
 	switch n.K {
@@ -159,6 +161,9 @@ func render(n *Node) string {
 		return "break"
 	case "continue":
 		return "continue"
+	case "retvar":
+		v := strconv.Itoa(n.Val)
+		return "func f" + id + "() {\nr" + id + " = " + v + "\ndefer func() { r" + id + " = " + v + " + 1; return 7 }()\nreturn r" + id + "\n}\npv(" + id + ", f" + id + "())"
 	case "multi":
 		var defs, es, names []string
 		for i, it := range n.Body {
@@ -175,7 +180,17 @@ func render(n *Node) string {
 		if len(defs) > 0 {
 			pre = strings.Join(defs, "\n") + "\n"
 		}
-		switch n.N % 5 {
+		switch n.N % nMulti {
+		case 5:
+			return pre + "if " + es[0] + " == " + es[1] + " { }"
+		case 6:
+			return pre + "switch " + es[0] + " {\ncase " + es[1] + ":\n}"
+		case 7:
+			return pre + "for q" + id + " in [" + strings.Join(es, ", ") + "] { }"
+		case 8:
+			return pre + "func mr" + id + "() { return " + strings.Join(es, ", ") + " }\nmr" + id + "()"
+		case 9:
+			return pre + "m" + id + " = " + es[0] + " ?? " + es[1]
 		case 0:
 			return pre + strings.Join(names, ", ") + " = " + strings.Join(es, ", ")
 		case 1:
@@ -230,15 +245,15 @@ type frame struct {
 }
 
 type model struct {
-	calls        int
-	faults       map[int]string
-	trace        []string
-	pol          policy
-	ambiguous    bool // the run passed through the unspecified point "finally after a failing catch"
-	ambiguousCF  bool // the run passed through the unspecified point "control flow leaving a try body"
-	loopIdx      map[int]int
-	catchMsg     map[int]string
-	fired        map[string]int
+	calls       int
+	faults      map[int]string
+	trace       []string
+	pol         policy
+	ambiguous   bool // the run passed through the unspecified point "finally after a failing catch"
+	ambiguousCF bool // the run passed through the unspecified point "control flow leaving a try body"
+	loopIdx     map[int]int
+	catchMsg    map[int]string
+	fired       map[string]int
 }
 
 func faultMsg(kind string, k int) string {
@@ -447,7 +462,20 @@ func (m *model) exec(n *Node, fr *frame) sig {
 		return sig{kind: 3}
 	case "continue":
 		return sig{kind: 4}
+	case "retvar":
+		// deferred calls do not alter the invocation's result: the value was fixed by `return`
+		return m.host("v:" + id + ":" + strconv.Itoa(n.Val))
 	case "multi":
+		if n.N%nMulti == 9 {
+			// p(a) ?? p(b): an error of the left side is discarded, a nil result too; only a non-nil
+			// result (the injected "error returned as a value") keeps the right side from being evaluated
+			before := m.calls
+			s1 := m.host("p:" + strconv.Itoa(n.Body[0].ID))
+			if s1.kind == 0 && m.faults[before+1] == "error-result" {
+				return sig{}
+			}
+			return m.host("p:" + strconv.Itoa(n.Body[1].ID))
+		}
 		// the expressions of a list are evaluated left to right; the first failure aborts the statement
 		for _, it := range n.Body {
 			if it.K == "fcall" {
@@ -458,7 +486,7 @@ func (m *model) exec(n *Node, fr *frame) sig {
 				return s
 			}
 		}
-		if n.N%5 == 4 {
+		if n.N%nMulti == 4 {
 			return m.host("p:" + id)
 		}
 		return sig{}
@@ -612,6 +640,8 @@ func (g *gen) stmt(c gctx) *Node {
 			return n
 		case k == 14 && c.inFunc && !c.noRet:
 			return &Node{K: "ret", ID: id, Val: 10 + g.r.Intn(80)}
+		case k == 15 && g.r.Intn(4) == 0:
+			return &Node{K: "retvar", ID: id, Val: 10 + g.r.Intn(80)}
 		case k == 15:
 			return &Node{K: "throw", ID: id, Msg: "t" + strconv.Itoa(id)}
 		case k == 16:
@@ -621,10 +651,13 @@ func (g *gen) stmt(c gctx) *Node {
 		case k == 18 && len(c.catchVars) > 0:
 			return &Node{K: "rethrow", ID: id, N: c.catchVars[len(c.catchVars)-1]}
 		case k == 19 && !leaf:
-			n := &Node{K: "multi", ID: id, N: g.r.Intn(5)}
+			n := &Node{K: "multi", ID: id, N: g.r.Intn(nMulti)}
 			cnt := 2 + g.r.Intn(2)
+			if n.N%nMulti == 9 || n.N%nMulti == 5 || n.N%nMulti == 6 {
+				cnt = 2
+			}
 			for i := 0; i < cnt; i++ {
-				if g.r.Intn(2) == 0 {
+				if g.r.Intn(2) == 0 && n.N%nMulti != 9 {
 					fc := gctx{depth: c.depth + 1, inFunc: true}
 					n.Body = append(n.Body, &Node{K: "fcall", ID: g.id(), Body: g.stmts(fc, 3)})
 				} else {
@@ -834,6 +867,12 @@ func valid(w *Work) bool {
 					if it.K != "probe" && it.K != "fcall" {
 						return false
 					}
+					if it.K != "probe" && n.N%nMulti == 9 {
+						return false
+					}
+				}
+				if f := n.N % nMulti; (f == 9 || f == 5 || f == 6) && len(n.Body) != 2 {
+					return false
 				}
 				if !chk(n.Body, c) {
 					return false
